@@ -179,6 +179,7 @@ void cmi_mempool_expand(struct cmi_mempool *mp)
 
     /* Set the next pointer in the last object to NULL, end of the list */
     *vp = NULL;
+    CMI_VERIF_POOL_POISON(ap, mp->incr_sz);
     cmb_assert_debug(mp->next_obj != NULL);
 }
 
